@@ -146,3 +146,101 @@ Proof.
   destruct (recv_end j Hj) as [E1 E2]. rewrite E1. cbn [same_as_prev]. rewrite E2.
   cbn. reflexivity.
 Qed.
+
+(* ---- C12 soundness of the framing layer ------------------------------------------------------ *)
+
+Lemma skip_ws_split s : exists j, s = j ++ skip_ws s /\ all_ws j.
+Proof.
+  induction s as [|c s [j [E Hj]]]; cbn.
+  - exists []. split; [reflexivity|constructor].
+  - destruct (is_ws c) eqn:Ec.
+    + exists (c :: j). split; [cbn; now f_equal | now constructor].
+    + exists []. split; [reflexivity|constructor].
+Qed.
+
+(* a record returned by Recv is a contiguous span of the stream: white space, then the bytes of
+   exactly one JSON value as Go's scanner delimits it (the record; a null value is returned as the
+   empty record), and [rest] is everything after it.  Nothing fabricated, reordered or shortened.
+   (The JSON grammar itself is the scanner model of JsonScan.v; it is not restated independently.) *)
+Theorem rawjson_sound : forall st s r st' rest,
+  recv st s = Ok r st' rest ->
+  st = None /\ st' = None /\
+  exists j raw, s = j ++ raw ++ rest /\ all_ws j /\
+                (exists c t, raw = c :: t /\ is_ws c = false) /\
+                scan (raw ++ rest) = Done rest /\
+                r = (if is_null raw then [] else raw).
+Proof.
+  intros st s r st' rest H. unfold recv in H. destruct st as [e|]; [discriminate|].
+  destruct (skip_ws_split s) as [j [Es Hj]].
+  destruct (skip_ws s) as [|c v] eqn:Ev; [discriminate|].
+  destruct (scan (c :: v)) as [rest0| | |] eqn:Esc; try discriminate.
+  inversion H; subst r st' rest0. split; auto. split; auto.
+  destruct (scan_suffix _ _ Esc) as [raw Eraw].
+  assert (Hlen : (length rest + 1 <= length (c :: v))%nat).
+  { pose proof (scan_fuel_ok (c :: v)) as P. rewrite Esc in P. exact P. }
+  destruct raw as [|c' t].
+  { cbn in Eraw. rewrite <- Eraw in Hlen. cbn [length] in Hlen. lia. }
+  cbn [app] in Eraw. injection Eraw as Hc Hv. subst c' v.
+  exists j, (c :: t). split; [rewrite Es; reflexivity|]. split; [exact Hj|].
+  split; [exists c, t; split; [reflexivity | eapply skip_ws_head; exact Ev]|].
+  split; [exact Esc|].
+  change (c :: t ++ rest) with ((c :: t) ++ rest). rewrite span_before_app. reflexivity.
+Qed.
+
+Example rawjson_sound_nonvacuous :
+  (* space {} [1] : the first record is the object, the rest starts at the bracket *)
+  recv None [32; 123; 125; 91; 49; 93] = Ok [123; 125] None [91; 49; 93].
+Proof. reflexivity. Qed.
+
+(* ---- C12 truncation --------------------------------------------------------------------------- *)
+
+(* a proper prefix of a JSON object, array or string is never a complete value: Recv reports an
+   error and returns no (shortened) record *)
+Lemma recv_cut j r pre suf :
+  all_ws j -> json_record r = true -> r = pre ++ suf -> pre <> [] -> suf <> [] ->
+  exists e, recv None (j ++ pre) = Err e (Some e) (j ++ pre).
+Proof.
+  intros Hj Hr E Hp Hs.
+  destruct (json_record_head r Hr) as [c [t [Er [Hc Hk]]]].
+  destruct pre as [|p0 pre']; [congruence|]. assert (p0 = c) by (rewrite Er in E; now inversion E). subst p0.
+  unfold recv. rewrite skip_ws_app by assumption. cbn [skip_ws]. rewrite Hc.
+  pose proof (scan_fuel_ok (c :: pre')) as P.
+  destruct (scan (c :: pre')) as [rest'| | |] eqn:Esc; [|eauto|eauto|contradiction].
+  exfalso.
+  assert (Hnn : nonnum (c :: pre')).
+  { unfold nonnum. cbn [skip_ws]. rewrite Hc. unfold num_start, is_digit19.
+    destruct Hk as [->|[->| ->]]; reflexivity. }
+  assert (Hext : scan ((c :: pre') ++ suf) = Done (rest' ++ suf)).
+  { unfold scan in *. apply (proj1 (ext_all _) 0 (c :: pre') rest' Esc (or_intror Hnn) suf).
+    unfold scan_fuel. rewrite app_length. lia. }
+  rewrite <- E in Hext. unfold json_record in Hr. rewrite Er in Hr. rewrite Er in Hext.
+  apply andb_true_iff in Hr. destruct Hr as [_ Hr]. rewrite Hext in Hr.
+  destruct rest'; [destruct suf; [congruence|discriminate]|discriminate].
+Qed.
+
+Theorem rawjson_truncation : forall rs r pre suf,
+  Forall legal rs -> json_record r = true -> r = pre ++ suf -> pre <> [] -> suf <> [] ->
+  exists e, recv_all (concat (map enc rs) ++ pre) = map IRec rs ++ [IErr e].
+Proof.
+  intros rs r pre suf Hrs Hr E Hp Hs. unfold recv_all, recv_all_from.
+  assert (Hfuel : exists k, S (S (length (concat (map enc rs) ++ pre))) = (length rs + S (S k))%nat).
+  { assert (length rs <= length (concat (map enc rs)))%nat.
+    { clear - Hrs. induction Hrs as [|x rs Hx _ IH]; cbn; auto. rewrite app_length.
+      rewrite (enc_legal x Hx). destruct Hx as [->|Hx]; [cbn; lia|].
+      destruct (json_record_head x Hx) as [c [t [-> _]]]. cbn. lia. }
+    exists (length (concat (map enc rs)) - length rs + length pre)%nat. rewrite app_length. lia. }
+  destruct Hfuel as [k ->].
+  destruct (records_then_tail recv enc (fun st => st = None) legal all_ws) with
+    (rs := rs) (st := @None errkind) (j := @nil N) (fuel := S (S k)) (prev := @None item) (tail := pre)
+    as [st' [j' [prev' [-> [Hj' [Hp' Eq]]]]]]; auto; try congruence; try constructor.
+  { intros st j r0 rest -> Hj Hl. destruct (recv_enc j r0 rest Hj Hl) as [j1 [E1 Hj1]]. exists None, j1. auto. }
+  cbn [app] in Eq. rewrite Eq.
+  destruct (recv_cut j' r pre suf Hj' Hr E Hp Hs) as [e He]. exists e. f_equal.
+  cbn [recv_all_loop]. rewrite He. rewrite same_as_prev_noerr by assumption.
+  cbn [recv]. cbn [same_as_prev item_eqb]. rewrite errkind_eqb_refl. reflexivity.
+Qed.
+
+Example rawjson_truncation_nonvacuous :
+  (* {} then the first four bytes of the array of a string and a number *)
+  recv_all ([123; 125] ++ [91; 34; 97; 34]) = [IRec [123; 125]; IErr EUnexpectedEOF].
+Proof. reflexivity. Qed.
